@@ -1,18 +1,28 @@
 """Translator for C12: extracts the table-shaped / structural parts of the mechanism
 from the working tree and writes lean/FordModel/Generated/C12.lean.
 
-  symbolReplacements  dict literal inside NameSelector.get_name                  (sourceform.py)
-  fortranFileOrder    order of the `for x in new_file.<attr>` loops              (fortran_project.py: _fortran_file)
+  symbolReplacements  per-character substitution of NameSelector.get_name, PROBED on the real object (sourceform.py)
+  countKeyLower       key of its counter (name as written / lower-cased), PROBED
+  fortranFileOrder    order in which _fortran_file reads the entity lists of a parsed file, PROBED on a recording stub
+  extensionBySuffix   Project.__init__: kind of a file decided by its last suffix (membership) or by the first
+                      configured extension the name ends with (order of the extension list visible), PROBED
+  outputDirExcludedIn for every way output_dir can be configured: does find_all_files leave out what lies below it,
+                      PROBED through the real load_settings / parse_arguments / find_all_files on a scratch project
   containersOrder     the CONTAINERS dict of Project.correlate                    (fortran_project.py)
   unitChainOrder      chain(sfile.modules, ...) of the gather loop in correlate   (fortran_project.py)
   pageListOrder       entity_list_page_map of Documentation.__init__ (+allfiles)  (output.py)
-  fileIterSorted      is the iterable of the "Parsing files" loop wrapped in sorted()?   (variant switch)
+  fileIterSorted      are the enumerated files parsed in sorted order whatever order they are handed out in?  PROBED
+                      (variant switch)
   usesIterSorted      is `obj.uses` of the use_list macro iterated through a sort filter? (variant switch)
-  writeoutSteps       kinds of the top-level statements of Documentation.writeout (first must remove out_dir)
-  outDirs             the directory list created by writeout
+  writeoutSteps       what a real run does at the output directory, in order, OBSERVED on a scratch project with a stale
+                      output directory (file-system primitives wrapped; `removeOut` = the stale content is gone)
+  writeoutStepsPlainFile  the same with a plain file where the directory goes
+  outDirs             the sub-directories created
   nodeIterSites       every loop over a node collection in graphs.py with "is it sorted(...)"
-  serialGraphs / parallelGraphs   (collection, graph attributes) pairs of the two branches of output_graphs
-  incDirsOrdered      does FortranReader keep / probe the include directories in the order given?  (variant switch)
+  serialGraphs / parallelGraphs   (collection, graphs written) of output_graphs without / with worker processes, OBSERVED
+                      on a manager holding recording stand-ins (process_map replaced by a plain loop)
+  incDirsOrdered      does FortranReader take an include file from the first listed directory that holds it, for every
+                      order of the list?  PROBED on the real reader  (variant switch)
   inheritedIterOrdered  do the loops of FortranType.correlate that collect inherited components / bindings walk
                       the parent's lists (source order), or a hash-ordered collection?           (variant switch)
   hashIterSites       every place in ford/*.py where a syntactically hash-ordered collection is turned into a
@@ -75,50 +85,276 @@ def strip_wrappers(node):
 # ---------------------------------------------------------------- extractors
 
 
+# ---- probes: the decision is observed by running the real function on stub inputs, not read off its spelling
+
+
+def _ns_stub(S, name, cls_name="FortranModule", obj="module"):
+    """an instance of a real entity class without running its constructor (real `get_dir()`)"""
+    it = object.__new__(getattr(S, cls_name))
+    it.obj = obj
+    it.parent = None
+    it.name = name
+    return it
+
+
+def _probe_get_name(names, same_item_twice=False):
+    """identifiers a fresh NameSelector hands out for stub modules of these names, requested in this order"""
+    common.import_ford()
+    import ford.sourceform as S
+
+    ns = S.NameSelector()
+    items = [_ns_stub(S, n) for n in names]
+    out = [ns.get_name(it) for it in items]
+    if same_item_twice:
+        out += [ns.get_name(it) for it in items]
+    return out
+
+
 def symbol_replacements():
-    fn = _method(ast.parse(_src("ford/sourceform.py")), "NameSelector", "get_name")
-    for n in ast.walk(fn):
-        if isinstance(n, ast.For) and isinstance(n.iter, ast.Call) and isinstance(n.iter.func, ast.Attribute) \
-                and n.iter.func.attr == "items" and isinstance(n.iter.func.value, ast.Dict):
-            d = n.iter.func.value
-            out = [(ast.literal_eval(k), ast.literal_eval(v)) for k, v in zip(d.keys, d.values)]
-            if not out or any(len(k) != 1 for k, _ in out):
-                raise LookupError("symbol table is not single-character keyed")
-            return out
-    raise LookupError("symbol replacement dict not found in NameSelector.get_name")
+    """The per-character substitution `NameSelector.get_name` applies to a name, observed on the real object:
+    `a<c>b` is requested for every printable ASCII character `c` (and a few others); the characters that do not
+    come back as themselves (lower-cased) are the table.  Then the table is validated as a *character-wise*
+    substitution (what the model implements) on all strings of length <= 3 over the symbols and two letters."""
+    alphabet = [chr(k) for k in range(32, 127)] + ["é", "Σ", "\t"]
+    table = []
+    for c in alphabet:
+        (got,) = _probe_get_name(["a" + c + "b"])
+        if not (got.startswith("a") and got.endswith("b") and len(got) >= 2):
+            raise LookupError(f"NameSelector.get_name('a{c}b') = {got!r}: not a substitution of the middle character")
+        mid = got[1:-1]
+        if mid != c.lower():
+            table.append((c, mid))
+    if not table:
+        raise LookupError("NameSelector.get_name replaces no character at all: the symbol table was not found")
+    sub = dict(table)
+    import itertools
+
+    small = [k for k, _ in table][:6] + ["a", "Z", "~"]
+    for n in (1, 2, 3):
+        for tup in itertools.product(small, repeat=n):
+            name = "".join(tup)
+            (got,) = _probe_get_name([name])
+            want = "".join(sub.get(ch, ch.lower()) for ch in name)
+            if got != want:
+                raise LookupError(f"NameSelector.get_name({name!r}) = {got!r}, a character-wise substitution gives {want!r}")
+    return table
 
 
 def numbering_shape():
-    """Facts about get_name the model relies on: memo on `item in self._items`, counter keyed by
-    (get_dir(), <key>), suffix only when num > 1, lower() applied to the output name.
-    Returns True when <key> is the lower-cased name (repaired, commit 8dec555), False when it is
-    the name as written (asIs)."""
-    fn = _method(ast.parse(_src("ford/sourceform.py")), "NameSelector", "get_name")
-    src = ast.unparse(fn)
-    need = ["num = 1", "name = item.name.lower()", "if num > 1", "name + '~' + str(num)",
-            "if item in self._items", "'__unnamed__'"]
-    missing = [n for n in need if n not in src]
-    if missing:
-        raise LookupError(f"NameSelector.get_name no longer has the modelled shape: missing {missing}")
-    as_is = "self._counts[item.get_dir()][item.name] + 1" in src and "self._counts[item.get_dir()][item.name] = num" in src
-    lower_key = ("self._counts[item.get_dir()][name] + 1" in src and "self._counts[item.get_dir()][name] = num" in src
-                 and src.index("name = item.name.lower()") < src.index("self._counts[item.get_dir()][name] + 1")
-                 # the symbol replacements must come after the count, the key is the plain lower-cased name
-                 and src.index("self._counts[item.get_dir()][name] = num") < src.index("name.replace("))
-    if as_is == lower_key:
-        raise LookupError("NameSelector.get_name: the key of the counter is neither item.name nor item.name.lower()")
-    return lower_key
+    """Facts about get_name the model relies on, observed on the real object: an item keeps its identifier
+    (memo), the n-th item under one key gets `~n` from n = 2 on, the empty name becomes `__unnamed__`, the
+    identifier is built from the lower-cased name.  Returns True when the counter is kept under the lower-cased
+    name (`Foo` then `foo` -> `foo`, `foo~2`; repaired, commit 8dec555), False when it is kept under the name as
+    written (`foo`, `foo`)."""
+    got = _probe_get_name(["foo", "foo", "foo", "bar"], same_item_twice=True)
+    if got != ["foo", "foo~2", "foo~3", "bar"] * 2:
+        raise LookupError(f"NameSelector.get_name no longer numbers first come / memoises: foo, foo, foo, bar -> {got}")
+    if _probe_get_name(["", ""]) != ["__unnamed__", "__unnamed__~2"]:
+        raise LookupError("NameSelector.get_name: the empty name is no longer `__unnamed__`, `__unnamed__~2`")
+    if _probe_get_name(["BaR"]) != ["bar"]:
+        raise LookupError("NameSelector.get_name: the identifier is no longer the lower-cased name")
+    a = _probe_get_name(["Foo", "foo", "FOO"])
+    b = _probe_get_name(["foo", "Foo"])
+    if a == ["foo", "foo~2", "foo~3"] and b == ["foo", "foo~2"]:
+        return True
+    if a == ["foo", "foo", "foo"] and b == ["foo", "foo"]:
+        return False
+    raise LookupError(f"NameSelector.get_name: the key of the counter is neither item.name nor item.name.lower(): "
+                      f"Foo, foo, FOO -> {a}; foo, Foo -> {b}")
+
+
+class _Enumerated(list):
+    """stands in for the set `find_all_files` returns: a collection whose iteration order is chosen by the probe"""
+
+
+_SF_LISTS = ("modules", "submodules", "functions", "subroutines", "programs", "blockdata")
+
+
+def _probe_project(paths, extensions=None, fixed=None, fpp=None, extra=None):
+    """Run the real `Project.__init__` on stubs: `find_all_files` hands out `paths` in exactly this order, the
+    source-file class and `GenericSource` only record how they are called.  Returns (decisions, attribute log):
+    decisions = [(path, 'fortran', preprocessed?, fixed form?) | (path, 'extra', None, None)] in call order; the
+    log lists the entity lists of the parsed file in the order `_fortran_file` reads them."""
+    common.import_ford()
+    from pathlib import Path as P
+
+    import ford.fortran_project as FP
+    import ford.settings as ST
+
+    kw = {}
+    if extensions is not None:
+        kw = dict(extensions=list(extensions), fixed_extensions=list(fixed or []), fpp_extensions=list(fpp or []),
+                  extra_filetypes=[ST.ExtraFileType(e, "#") for e in (extra or [])])
+    settings = ST.ProjectSettings(**kw)
+    if extensions is not None:
+        settings.extensions = list(extensions)      # the order under test (after __post_init__ it is a set's order)
+    decisions, log = [], []
+
+    class StubSourceFile:
+        def __init__(self, path, _settings, preprocessor=None, fixed=False, **_kw):
+            decisions.append((str(path), "fortran", preprocessor is not None, bool(fixed)))
+
+        def __getattr__(self, name):
+            if name.startswith("__"):
+                raise AttributeError(name)
+            log.append(name)
+            return []
+
+    def stub_generic(path, _settings, *a, **k):
+        decisions.append((str(path), "extra", None, None))
+        return object()
+
+    saved = (FP.find_all_files, FP.FortranSourceFile, FP.GenericSource)
+    FP.find_all_files = lambda _s: _Enumerated(P(p) for p in paths)
+    FP.FortranSourceFile = StubSourceFile
+    FP.GenericSource = stub_generic
+    try:
+        FP.Project(settings)
+    finally:
+        FP.find_all_files, FP.FortranSourceFile, FP.GenericSource = saved
+    return decisions, log
 
 
 def fortran_file_order():
-    fn = _method(ast.parse(_src("ford/fortran_project.py")), "Project", "_fortran_file")
+    """the order in which `_fortran_file` reads the entity lists of a parsed file (observed on a recording stub)"""
+    _dec, log = _probe_project(["/p/src/a.f90"])
+    out = [a for a in dict.fromkeys(log) if a in _SF_LISTS]
+    if sorted(out) != sorted(_SF_LISTS):
+        raise LookupError(f"_fortran_file reads {out} of the parsed file, expected the lists {list(_SF_LISTS)}")
+    return out
+
+
+PROBE_PATHS = ["/p/src/b/x.f90", "/p/src/a/x.f90", "/p/src/zz.f90", "/p/src/a/y.f90", "/p/src/Z.f90", "/p/src/a.f90"]
+
+
+def file_iter_sorted():
+    """Does `Project.__init__` parse the enumerated files in sorted order (by full path), whatever order the
+    collection hands them out in?  Observed: the stubbed `find_all_files` returns the same paths in three
+    different orders; True iff every time they are parsed in `sorted()` order.  Anything else means the
+    enumeration order is (at least partly) visible: False."""
+    from pathlib import Path as P
+
+    want = [str(x) for x in sorted(P(p) for p in PROBE_PATHS)]
+    orders = [list(PROBE_PATHS), list(reversed(want)), want[3:] + want[:3]]
+    seen = []
+    for o in orders:
+        dec, _ = _probe_project(o)
+        got = [d[0] for d in dec]
+        if sorted(got) != sorted(want):
+            raise LookupError(f"Project.__init__ parsed {got} when {o} were enumerated")
+        seen.append(got == want)
+    return all(seen), ("sorted" if all(seen) else "enumeration order visible")
+
+
+EXT_PROBE = {"extensions": ["f90", "pp.f90", "F90", "q.F90"], "fixed": ["f", "inc.f"], "fpp": ["pp.f90", "F90"],
+             "extra": ["txt", "cfg.txt"]}
+EXT_PROBE_FILES = ["/p/src/a.f90", "/p/src/b.pp.f90", "/p/src/c.F90", "/p/src/d.q.F90", "/p/src/e.f", "/p/src/g.inc.f",
+                   "/p/src/h.txt", "/p/src/i.cfg.txt", "/p/src/j.pp.F90", "/p/src/k.f90.txt", "/p/src/l.dat", "/p/src/m.q.f90"]
+
+
+def last_suffix(name: str) -> str:
+    """`pathlib.PurePath(name).suffix[1:]`"""
+    i = name.rfind(".")
+    return name[i + 1:] if 0 < i < len(name) - 1 else ""
+
+
+def file_kind(by_suffix, exts, fixed, fpp, extra, name):
+    """the model's rule (lean: Order.fileKind), used to recognise which rule the code follows"""
+    ext = last_suffix(name)
+    if not by_suffix:
+        ext = next((e for e in list(exts) + list(fixed) + list(extra) if name.endswith("." + e)), ext)
+    if ext in list(exts) + list(fixed):
+        return ("fortran", ext in fpp, ext in fixed)
+    if ext in extra:
+        return ("extra", None, None)
+    return None
+
+
+def extension_by_suffix():
+    """How does `Project.__init__` decide what a file is (free / fixed form, preprocessed, extra file type)?
+    Observed on stubs for every order of a list of configured extensions in which some are dotted suffixes of
+    others (`f90` / `pp.f90`): True when the decision is the one the *last suffix* of the name gives by membership
+    (then the order of the extension list - a set's order - cannot matter); False when the first configured
+    extension the name ends with wins (order visible).  Anything else raises."""
+    import itertools
+    import os
+
+    cfg = EXT_PROBE
+    rules = {True: True, False: True}
+    for perm in itertools.permutations(cfg["extensions"]):
+        dec, _ = _probe_project(EXT_PROBE_FILES, perm, cfg["fixed"], cfg["fpp"], cfg["extra"])
+        got = {d[0]: d[1:] for d in dec}
+        for rule in (True, False):
+            want = {}
+            for f in EXT_PROBE_FILES:
+                k = file_kind(rule, perm, cfg["fixed"], cfg["fpp"], cfg["extra"], os.path.basename(f))
+                if k is not None:
+                    want[f] = k
+            if want != got:
+                rules[rule] = False
+    if rules[True]:
+        return True
+    if rules[False]:
+        return False
+    raise LookupError("Project.__init__: the kind of a file follows neither its last suffix nor the first configured "
+                      "extension its name ends with")
+
+
+OUT_DIR_CONFIGS = [
+    # (label, source of output_dir, project_url)
+    ("output_dir from the project file; relative URLs", "file", ""),
+    ("output_dir from the project file; project_url set", "file", "https://example.org/doc"),
+    ("default output_dir; relative URLs", "default", ""),
+    ("default output_dir; project_url set", "default", "https://example.org/doc"),
+    ("output_dir from the command line; relative URLs", "cli", ""),
+    ("output_dir from the command line; project_url set", "cli", "https://example.org/doc"),
+]
+
+
+def output_dir_excluded():
+    """For every way the output directory can be configured: does `find_all_files` leave out what lies below it?
+    Observed on a real scratch project whose output directory is inside the source directory and already holds a
+    Fortran file (as an earlier run with `incl_src` leaves it): the settings are built by the real
+    `load_settings` / `parse_arguments`, then the real `find_all_files` is asked."""
+    ford = common.import_ford()
+    import os
+
+    import ford.fortran_project as FP
+
     out = []
-    for n in fn.body:
-        if isinstance(n, ast.For) and isinstance(n.iter, ast.Attribute) and isinstance(n.iter.value, ast.Name) \
-                and n.iter.value.id == "new_file":
-            out.append(n.iter.attr)
-    if not out:
-        raise LookupError("_fortran_file loops not found")
+    with common.scratch_dir("ford-verif-c12-probe-") as scratch:
+        for k, (label, source, url) in enumerate(OUT_DIR_CONFIGS):
+            root = Path(scratch) / f"c{k}"
+            src_dir, out_rel = ("./src", "./src/html") if source != "default" else (".", "./doc")
+            real_src = root / src_dir
+            real_src.mkdir(parents=True)
+            (real_src / "a.f90").write_text("module a\nend module a\n")
+            stale = root / out_rel / "src" / "old.f90"
+            stale.parent.mkdir(parents=True)
+            stale.write_text("module old\nend module old\n")
+            lines = ["---", "project: probe", f"src_dir: {src_dir}", "preprocess: false"]
+            if source == "file":
+                lines.append(f"output_dir: {out_rel}")
+            if url:
+                lines.append(f"project_url: {url}")
+            text = "\n".join(lines + ["---", "", "text", ""])
+            (root / "proj.md").write_text(text)
+            cwd = os.getcwd()
+            try:
+                os.chdir(root)
+                docs, data = ford.load_settings(text, root, "proj.md")
+                cli = {"output_dir": out_rel} if source == "cli" else {}
+                data, _docs = ford.parse_arguments(cli, docs, data, root)
+                found = {os.path.relpath(str(p), root) for p in FP.find_all_files(data)}
+            finally:
+                os.chdir(cwd)
+            mine = os.path.normpath(os.path.join(src_dir, "a.f90"))
+            old = os.path.normpath(os.path.join(out_rel, "src", "old.f90"))
+            if mine not in found or not found <= {mine, old}:
+                raise LookupError(f"find_all_files on the probe project ({label}) returned {sorted(found)}")
+            if os.path.normpath(str(data.output_dir)) != os.path.normpath(str(root / out_rel)):
+                raise LookupError(f"probe project ({label}): output_dir is {data.output_dir}")
+            out.append((label, old not in found))
     return out
 
 
@@ -138,24 +374,13 @@ def correlate_tables():
     return containers, chain_order
 
 
-def file_iter_sorted():
-    fn = _method(ast.parse(_src("ford/fortran_project.py")), "Project", "__init__")
-    for n in ast.walk(fn):
-        if isinstance(n, ast.For) and isinstance(n.target, ast.Name) and n.target.id == "filename":
-            it = strip_wrappers(n.iter)
-            src = ast.unparse(it)
-            if "find_all_files" not in src:
-                raise LookupError(f"Parsing-files loop iterates {src}")
-            return is_sorted_call(it), src
-    raise LookupError("Parsing-files loop not found in Project.__init__")
-
-
 def find_all_files_returns_set():
-    fn = _find(ast.parse(_src("ford/fortran_project.py")), ast.FunctionDef, "find_all_files")
-    rets = [n for n in ast.walk(fn) if isinstance(n, ast.Return)]
-    if len(rets) != 1:
-        raise LookupError("find_all_files: expected one return")
-    return ast.unparse(rets[0].value)
+    """informational only (goes into the evidence, no table depends on it)"""
+    try:
+        fn = _find(ast.parse(_src("ford/fortran_project.py")), ast.FunctionDef, "find_all_files")
+        return "; ".join(ast.unparse(n.value) for n in ast.walk(fn) if isinstance(n, ast.Return) and n.value is not None)
+    except Exception as e:  # noqa
+        return f"? ({e})"
 
 
 def page_list_order():
@@ -174,37 +399,118 @@ def page_list_order():
     return order + [extra]
 
 
-def writeout_steps():
-    fn = _method(ast.parse(_src("ford/output.py")), "Documentation", "writeout")
-    steps = []
-    dirs = None
-    for st in fn.body:
-        src = ast.unparse(st)
-        if isinstance(st, ast.Expr) and isinstance(st.value, ast.Constant):
-            continue  # docstring
-        if isinstance(st, ast.AnnAssign) or isinstance(st, ast.Assign):
-            steps.append("bind")
-        elif isinstance(st, ast.If) and "is_file()" in ast.unparse(st.test) and "unlink" in src and "rmtree(out_dir" in src:
-            steps.append("removeOut")
-        elif isinstance(st, ast.Expr) and src.startswith("shutil.rmtree(out_dir"):
-            steps.append("removeOut")
-        elif "out_dir.unlink" in src and "rmtree(out_dir" not in src:
-            steps.append("unlinkIfFile")  # removes a plain file only, a directory stays
-        elif isinstance(st, ast.Try) and "out_dir.mkdir" in src:
-            steps.append("mkdirOut")
-        elif isinstance(st, ast.For) and isinstance(st.iter, ast.List) and ".mkdir" in src:
-            got = [ast.literal_eval(e) for e in st.iter.elts]
-            if dirs is None:
-                dirs = got
-            steps.append("mkdirSub")
+def _observe_output_events(project_file: Path, out: Path, stale_present):
+    """Run the real FORD in-process on a scratch project and log, in order, what it does at / below the output
+    directory: `mkdirOut`, `mkdirSub <name>`, `write` (file or tree copied, file opened for writing) - and
+    `removeOut` at the moment the stale content (`stale_present()` turning false) is found to be gone.  The file
+    system primitives are wrapped, not the FORD functions: it does not matter which function removes or writes."""
+    import builtins
+    import io
+    import os
+    import pathlib
+    import shutil
+
+    from harness import e2e
+
+    events: list = []
+    depth = [0]
+    state = {"stale": bool(stale_present())}
+
+    def note_removal():
+        if state["stale"] and not stale_present():
+            state["stale"] = False
+            events.append(("removeOut", ""))
+
+    def log(kind, path):
+        if depth[0] > 0 or isinstance(path, int):
+            return
+        try:
+            p = Path(os.path.abspath(os.fspath(path)))
+        except TypeError:
+            return
+        if p != out and out not in p.parents:
+            return
+        note_removal()
+        if kind == "mkdir" and p == out:
+            events.append(("mkdirOut", ""))
+        elif kind == "mkdir" and p.parent == out:
+            events.append(("mkdirSub", p.name))
         else:
-            steps.append("write")
-    if dirs is None:
-        raise LookupError("writeout: directory list not found")
-    if "removeOut" not in steps:
-        # still a table (the theorem about it will fail), not a translator error
-        pass
-    return steps, dirs
+            events.append(("write", ""))
+
+    def wrap(fn, kind, idx):
+        def w(*a, **k):
+            if len(a) > idx:
+                log(kind, a[idx])
+            depth[0] += 1
+            try:
+                return fn(*a, **k)
+            finally:
+                depth[0] -= 1
+        return w
+
+    def wrap_open(fn):
+        def w(file, mode="r", *a, **k):
+            if any(c in str(mode) for c in "wax+"):
+                log("write", file)
+            return fn(file, mode, *a, **k)
+        return w
+
+    patches = [(pathlib.Path, "mkdir", wrap(pathlib.Path.mkdir, "mkdir", 0)), (os, "mkdir", wrap(os.mkdir, "mkdir", 0)),
+               (os, "makedirs", wrap(os.makedirs, "mkdir", 0)), (shutil, "copy", wrap(shutil.copy, "write", 1)),
+               (shutil, "copy2", wrap(shutil.copy2, "write", 1)), (shutil, "copyfile", wrap(shutil.copyfile, "write", 1)),
+               (shutil, "copytree", wrap(shutil.copytree, "write", 1)), (builtins, "open", wrap_open(builtins.open)),
+               (io, "open", wrap_open(io.open))]
+    saved = [(o, n, getattr(o, n)) for o, n, _ in patches]
+    try:
+        for o, n, f in patches:
+            setattr(o, n, f)
+        res = e2e.run_inprocess(project_file)
+    finally:
+        for o, n, f in saved:
+            setattr(o, n, f)
+    if res["rc"] != 0:
+        raise LookupError(f"writeout probe: FORD failed on the scratch project: {res.get('exc')} {res['log'][-300:]}")
+    note_removal()
+    return events
+
+
+def writeout_steps():
+    """What a real run does at the output directory, in order (consecutive equal events merged), observed twice:
+    the directory holds stale files / a plain file stands where the directory goes.  `removeOut` = from here on
+    the stale content is gone.  Returns (steps with a stale directory, sub-directories created, steps with a plain file)."""
+    from harness import e2e
+
+    src = {"a.f90": "module a\n  !! doc\ncontains\n  subroutine s()\n    !! doc\n  end subroutine s\nend module a\n"}
+    got = {}
+    dirs: list = []
+    with common.scratch_dir("ford-verif-c12-writeout-") as scratch:
+        for variant in ("dir", "file"):
+            root = Path(scratch) / variant
+            pf = e2e.write_project(root, src, {"graph": "true", "search": "true", "parallel": "0"})
+            out = (root / "doc").resolve()
+            if variant == "dir":
+                stale = [out / "stale.html", out / "proc" / "old~7.html", out / "deep" / "er" / "x.txt", out / "src" / "old.f90"]
+                for f in stale:
+                    f.parent.mkdir(parents=True, exist_ok=True)
+                    f.write_text("stale\n")
+                present = lambda stale=stale: any(f.exists() for f in stale)
+            else:
+                out.write_text("a plain file\n")
+                present = lambda out=out: out.is_file()
+            ev = _observe_output_events(pf, out, present)
+            steps = []
+            for kind, name in ev:
+                if kind == "mkdirSub" and variant == "dir" and name not in dirs:
+                    dirs.append(name)
+                if not steps or steps[-1] != kind:
+                    steps.append(kind)
+            if "write" not in steps:
+                raise LookupError(f"writeout probe ({variant}): no write below the output directory was observed: {steps}")
+            got[variant] = steps
+    if not dirs:
+        raise LookupError("writeout probe: no sub-directory of the output directory was created")
+    return got["dir"], dirs, got["file"]
 
 
 GRAPH_SITES = [
@@ -245,6 +551,79 @@ def peel(node):
     return node, was_sorted
 
 
+class _Subst(ast.NodeTransformer):
+    def __init__(self, mapping):
+        self.mapping = mapping
+
+    def visit_Name(self, n):
+        if isinstance(n.ctx, ast.Load) and n.id in self.mapping:
+            import copy
+            return copy.deepcopy(self.mapping[n.id])
+        return n
+
+
+def _subst(node, mapping):
+    import copy
+    return _Subst(mapping).visit(copy.deepcopy(node)) if mapping else node
+
+
+def inlined_statements(tree, cls_name, fn, depth=3):
+    """Every node of `fn` *and of the helpers it calls* (module-level functions called by name, methods of the same
+    class or of its bases called through `self.`), the helpers' parameters replaced by the argument expressions
+    of the call - so a loop that was moved into a helper is still seen as a loop of the calling function, over
+    the same expression.  Yields AST nodes (after substitution)."""
+    mod_funcs = {n.name: n for n in tree.body if isinstance(n, ast.FunctionDef)}
+    classes = {n.name: n for n in tree.body if isinstance(n, ast.ClassDef)}
+
+    def method(cname, name, seen=()):
+        c = classes.get(cname)
+        if c is None or cname in seen:
+            return None
+        for n in c.body:
+            if isinstance(n, ast.FunctionDef) and n.name == name:
+                return n
+        for base in c.bases:
+            if isinstance(base, ast.Name):
+                m = method(base.id, name, seen + (cname,))
+                if m is not None:
+                    return m
+        return None
+
+    def bind(helper, call, mapping, is_method):
+        params = [a.arg for a in helper.args.posonlyargs + helper.args.args]
+        if is_method and params:
+            params = params[1:]
+        out = {}
+        for p_, a_ in zip(params, call.args):
+            if isinstance(a_, ast.Starred):
+                return None
+            out[p_] = _subst(a_, mapping)
+        for kw in call.keywords:
+            if kw.arg is None:
+                return None
+            out[kw.arg] = _subst(kw.value, mapping)
+        return out
+
+    def walk(f, mapping, d, stack):
+        for n in ast.walk(f):
+            if n is f:
+                continue
+            yield _subst(n, mapping) if mapping and isinstance(n, (ast.For, ast.Assign, ast.AnnAssign, ast.Expr)) else n
+            if d > 0 and isinstance(n, ast.Call):
+                helper, is_m = None, False
+                if isinstance(n.func, ast.Name) and n.func.id in mod_funcs:
+                    helper = mod_funcs[n.func.id]
+                elif isinstance(n.func, ast.Attribute) and isinstance(n.func.value, ast.Name) and n.func.value.id == "self" \
+                        and cls_name is not None:
+                    helper, is_m = method(cls_name, n.func.attr), True
+                if helper is not None and helper is not f and helper.name not in stack:
+                    m2 = bind(helper, n, mapping, is_m)
+                    if m2 is not None:
+                        yield from walk(helper, m2, d - 1, stack + (helper.name,))
+
+    yield from walk(fn, {}, depth, (fn.name,))
+
+
 def node_iter_sites():
     tree = ast.parse(_src("ford/graphs.py"))
     out = []
@@ -253,7 +632,7 @@ def node_iter_sites():
         want_assign = expr.startswith("=")  # "=X": the site is an assignment `v = sorted(list(X))`
         text = expr.lstrip("=")
         found = None
-        for n in ast.walk(f):
+        for n in inlined_statements(tree, cls, f):
             if want_assign and isinstance(n, ast.Assign):
                 cand = n.value
             elif not want_assign and isinstance(n, ast.For):
@@ -265,49 +644,80 @@ def node_iter_sites():
                 # several loops over the same expression in one function: all must be sorted
                 found = was_sorted if found is None else (found and was_sorted)
         if found is None:
-            raise LookupError(f"graphs.py: iteration site {cls}.{fn} over {text} not found")
+            raise LookupError(f"graphs.py: iteration site {cls}.{fn} over {text} not found (also not in the helpers it calls)")
         out.append((f"{cls}.{fn}: {text}", found))
     return out
 
 
+GRAPH_COLLECTIONS = ("modules", "types", "procedures", "programs", "sourcefiles", "blockdata")
+
+
 def output_graphs_tables():
-    fn = _method(ast.parse(_src("ford/graphs.py")), "GraphManager", "output_graphs")
-    branch = None
-    for n in ast.walk(fn):
-        if isinstance(n, ast.If) and ast.unparse(n.test) == "njobs == 0":
-            branch = n
-    if branch is None:
-        raise LookupError("output_graphs: `if njobs == 0` not found")
-    serial = []
-    for st in branch.body:
-        if not isinstance(st, ast.For):
-            raise LookupError("output_graphs serial branch: unexpected statement " + ast.unparse(st)[:60])
-        coll = st.iter.attr
-        var = st.target.id
-        attrs = []
-        for c in st.body:
-            call = c.value
-            if not (isinstance(call, ast.Call) and call.func.attr == "create_svg" and call.func.value.value.id == var):
-                raise LookupError("output_graphs serial branch: unexpected body " + ast.unparse(c)[:60])
-            attrs.append(call.func.value.attr)
-        serial.append((coll, attrs))
-    par = []
-    for n in ast.walk(ast.Module(body=branch.orelse, type_ignores=[])):
-        if isinstance(n, ast.ListComp) and isinstance(n.elt, ast.Tuple):
-            gen = n.generators[0]
-            coll = gen.iter.attr
-            var = gen.target.id
-            attrs = [e.attr for e in n.elt.elts if isinstance(e, ast.Attribute) and isinstance(e.value, ast.Name)
-                     and e.value.id == var]
-            par.append((coll, attrs))
+    """Which graphs of which collection does `GraphManager.output_graphs` write - without worker processes and with
+    them?  Observed: the real method runs on a manager whose collections hold recording stand-ins (any attribute of
+    a stand-in is a graph that logs `create_svg`); `process_map` is replaced by a plain loop over the real wrapper
+    function.  Returns two tables [(collection, [graph attributes])], both sorted (the order in which different
+    files are written is covered by `parallel_irrelevant`)."""
+    common.import_ford()
+    import ford.graphs as G
+
+    def observe(njobs):
+        log = []
+
+        class StubGraph:
+            def __init__(self, coll, attr):
+                self.coll, self.attr = coll, attr
+
+            def create_svg(self, *_a, **_k):
+                log.append((self.coll, self.attr))
+
+        class StubEntity:
+            def __init__(self, coll):
+                self._coll = coll
+
+            def __getattr__(self, name):
+                if name.startswith("__"):
+                    raise AttributeError(name)
+                return StubGraph(self._coll, name)
+
+        with common.scratch_dir("ford-verif-c12-graphs-") as scratch:
+            gm = object.__new__(G.GraphManager)
+            gm.save_graphs = True
+            gm.graphdir = Path(scratch) / "graphs"
+            for c in GRAPH_COLLECTIONS:
+                setattr(gm, c, {StubEntity(c)})
+            gm.usegraph = gm.typegraph = gm.callgraph = gm.filegraph = None
+            gm.graph_objs = []
+            saved = G.process_map
+            used = []
+
+            def plain_map(fn, args, *a, **k):
+                used.append(True)
+                return [fn(x) for x in args]
+
+            G.process_map = plain_map
+            try:
+                gm.output_graphs(njobs)
+            finally:
+                G.process_map = saved
+        return log, bool(used)
+
+    serial_log, serial_used = observe(0)
+    par_log, par_used = observe(2)
+    if serial_used or not par_used:
+        raise LookupError(f"output_graphs: process_map used with njobs=0: {serial_used}, with njobs=2: {par_used}")
+
+    def table(log):
+        t = {}
+        for coll, attr in log:
+            t.setdefault(coll, [])
+            if attr not in t[coll]:
+                t[coll].append(attr)
+        return sorted((c, sorted(v)) for c, v in t.items())
+
+    serial, par = table(serial_log), table(par_log)
     if not serial or not par:
-        raise LookupError("output_graphs: branches not understood")
-    src = ast.unparse(fn)
-    if "process_map" not in src:
-        raise LookupError("output_graphs: process_map not found")
-    wrap = ast.unparse(_find(ast.parse(_src("ford/graphs.py")), ast.FunctionDef, "outputFuncWrap"))
-    if "for f in args[0:-1]" not in wrap or "f.create_svg(args[-1])" not in wrap:
-        raise LookupError("outputFuncWrap no longer calls create_svg on every graph of its tuple")
+        raise LookupError("output_graphs: no create_svg call observed")
     return serial, par
 
 
@@ -333,8 +743,17 @@ def uses_iter_sorted():
 
 
 def uses_is_set():
-    src = _src("ford/sourceform.py")
-    return "self.uses = set([m[0] for m in self.uses])" in src
+    """is `self.uses` of a code unit rebound to a hash-ordered collection in `correlate` (any spelling of a set)?"""
+    tree = ast.parse(_src("ford/sourceform.py"))
+    fn = _method(tree, "FortranCodeUnit", "correlate")
+    c = OrderClass(set(), {})
+    for n in inlined_statements(tree, "FortranCodeUnit", fn):
+        if isinstance(n, ast.Assign):
+            for t in n.targets:
+                if isinstance(t, ast.Attribute) and t.attr == "uses" and isinstance(t.value, ast.Name) and t.value.id == "self" \
+                        and c.cls(n.value) == "hash":
+                    return True
+    return False
 
 
 
@@ -458,45 +877,50 @@ def _classifier_for(rel, cls_name, fn_name):
 
 
 def inc_dirs_ordered():
-    """FortranReader keeps the include directories (`self.inc_dirs = ...` in __init__) and probes them
-    (`for b in [dirname] + self.inc_dirs` in include()) in the order given <=> neither expression is hash-ordered.
-    `sorted(...)` would be deterministic but not the configured order: not the modelled shape, raise."""
-    fn, c = _classifier_for("ford/reader.py", "FortranReader", "__init__")
-    kept = None
-    for n in ast.walk(fn):
-        if isinstance(n, (ast.Assign, ast.AnnAssign)):
-            tgts = n.targets if isinstance(n, ast.Assign) else [n.target]
-            for t in tgts:
-                if isinstance(t, ast.Attribute) and t.attr == "inc_dirs" and isinstance(t.value, ast.Name) \
-                        and t.value.id == "self":
-                    kept = n.value
-    if kept is None:
-        raise LookupError("FortranReader.__init__: assignment to self.inc_dirs not found")
-    if "inc_dirs" not in ast.unparse(kept):
-        raise LookupError(f"FortranReader.__init__: self.inc_dirs = {ast.unparse(kept)} does not come from inc_dirs")
-    fn2, c2 = _classifier_for("ford/reader.py", "FortranReader", "include")
-    probe = None
-    for n in ast.walk(fn2):
-        if isinstance(n, ast.For) and "inc_dirs" in ast.unparse(n.iter):
-            probe = n
-    if probe is None:
-        raise LookupError("FortranReader.include: loop over the include directories not found")
-    it = probe.iter
-    if not (isinstance(it, ast.BinOp) and isinstance(it.op, ast.Add) and isinstance(it.left, ast.List)
-            and "dirname(self.name)" in ast.unparse(it.left)) or not probe.orelse \
-            or not any(isinstance(x, ast.Break) for x in ast.walk(probe)):
-        raise LookupError("FortranReader.include: no longer `for b in [dirname(self.name)] + <dirs>: ... break ... else`")
-    classes = [c.cls(kept), c2.cls(it)]
-    if "sorted" in classes:
-        raise LookupError("FortranReader: include directories are sorted, not the modelled shape")
-    # the nested reader for the included file is given self.inc_dirs again
-    if "inc_dirs=self.inc_dirs" not in ast.unparse(fn2):
-        raise LookupError("FortranReader.include: nested reader is not given inc_dirs=self.inc_dirs")
-    # ... and the list handed to the reader is the option value itself
-    sf = ast.unparse(_method(ast.parse(_src("ford/sourceform.py")), "FortranSourceFile", "__init__"))
-    if "settings.include" not in sf:
-        raise LookupError("FortranSourceFile.__init__: settings.include is not handed to FortranReader")
-    return "hash" not in classes, ast.unparse(kept)
+    """Does `FortranReader` look an include file up in the directories *in the order given* (after the directory
+    of the including file)?  Observed on the real reader: a scratch source file includes `x.inc`, which three
+    directories hold with different contents (and which itself includes `y.inc`, held by two of them); the reader
+    is given the directories in all six orders.  True iff every time the first listed holder is read, for the
+    nested include as well, and a copy next to the source file wins over all of them.  Returns (ordered, note)."""
+    common.import_ford()
+    import itertools
+
+    import ford.reader as R
+
+    with common.scratch_dir("ford-verif-c12-inc-") as scratch:
+        root = Path(scratch)
+        (root / "src").mkdir()
+        main = root / "src" / "main.f90"
+        main.write_text("module m\ninclude 'x.inc'\nend module m\n")
+        own = root / "own"
+        own.mkdir()
+        (own / "main.f90").write_text("module m\ninclude 'x.inc'\nend module m\n")
+        (own / "x.inc").write_text("integer :: x_from_own\n")
+        dirs = []
+        for k in range(3):
+            d = root / f"d{k}"
+            d.mkdir()
+            (d / "x.inc").write_text(f"integer :: x_from_d{k}\ninclude 'y.inc'\n")
+            if k != 1:
+                (d / "y.inc").write_text(f"integer :: y_from_d{k}\n")
+            dirs.append(d)
+        ok = True
+        seen = []
+        for perm in itertools.permutations(range(3)):
+            order = [str(dirs[k]) for k in perm]
+            text = " ".join(R.FortranReader(str(main), inc_dirs=list(order))).lower()
+            first_y = next(k for k in perm if k != 1)
+            got = (f"x_from_d{perm[0]}" in text, f"y_from_d{first_y}" in text,
+                   sum(f"x_from_d{k}" in text for k in range(3)), sum(f"y_from_d{k}" in text for k in (0, 2)))
+            seen.append(got)
+            if got != (True, True, 1, 1):
+                ok = False
+            text = " ".join(R.FortranReader(str(own / "main.f90"), inc_dirs=list(order))).lower()
+            if "x_from_own" not in text or "x_from_d" in text:
+                raise LookupError("FortranReader.include: a file next to the including file no longer wins")
+        if any(g[2:] != (1, 1) for g in seen):
+            raise LookupError(f"FortranReader.include: not exactly one holder is read per include line: {seen}")
+    return ok, "the first listed holder is read for every order of the list" if ok else "order of the list not respected"
 
 
 def inherited_iter_ordered():
@@ -615,6 +1039,306 @@ def hash_iter_sites():
     return sorted(out.items())
 
 
+# ---------------------------------------------------------------- order definitions and sort sites
+
+
+def _self_other_compare(fn, op):
+    """`return self.<X> <op> other.<X>` -> text of X (with `self` written `_`), else None"""
+    body = [st for st in fn.body if not (isinstance(st, ast.Expr) and isinstance(st.value, ast.Constant))]
+    # locals bound once before the `return` are put back in (`a, b = self.k, other.k; return a < b`)
+    mapping = {}
+    while body and isinstance(body[0], ast.Assign) and len(body) > 1:
+        st = body.pop(0)
+        for t in st.targets:
+            if isinstance(t, ast.Name):
+                mapping[t.id] = _subst(st.value, mapping)
+            elif isinstance(t, ast.Tuple) and isinstance(st.value, ast.Tuple) and len(t.elts) == len(st.value.elts) \
+                    and all(isinstance(e, ast.Name) for e in t.elts):
+                vals = [_subst(e, mapping) for e in st.value.elts]
+                for e, v_ in zip(t.elts, vals):
+                    mapping[e.id] = v_
+            else:
+                return None
+    if len(body) != 1 or not isinstance(body[0], ast.Return):
+        return None
+    v = _subst(body[0].value, mapping)
+    if not (isinstance(v, ast.Compare) and len(v.ops) == 1 and isinstance(v.ops[0], op)):
+        return None
+    args = [a.arg for a in fn.args.args]
+    if len(args) != 2:
+        return None
+
+    class Ren(ast.NodeTransformer):
+        def __init__(self, frm):
+            self.frm = frm
+
+        def visit_Name(self, n):
+            return ast.copy_location(ast.Name(id="_", ctx=n.ctx), n) if n.id == self.frm else n
+
+    import copy
+    l = ast.unparse(Ren(args[0]).visit(copy.deepcopy(v.left)))
+    r = ast.unparse(Ren(args[1]).visit(copy.deepcopy(v.comparators[0])))
+    if l != r or not l.startswith("_."):
+        return None
+    return l[2:]
+
+
+def order_defs():
+    """every class of ford/*.py that defines `__lt__`: (file:Class, key compared by __lt__, key compared by
+    __eq__ or '', key hashed by __hash__ or '').  `sorted()` over a set of such objects is independent of the
+    iteration order of the set only if the key distinguishes the members of the set: for graph nodes the set
+    keeps one node per `ident` (__eq__/__hash__), so __lt__ has to compare the same attribute."""
+    out = []
+    for path in sorted((common.REPO / "ford").glob("*.py")):
+        tree = ast.parse(path.read_text())
+        for c in ast.walk(tree):
+            if not isinstance(c, ast.ClassDef):
+                continue
+            meths = {m.name: m for m in c.body if isinstance(m, ast.FunctionDef)}
+            if "__lt__" not in meths:
+                continue
+            lt = _self_other_compare(meths["__lt__"], ast.Lt)
+            if lt is None:
+                raise LookupError(f"{path.name}:{c.name}.__lt__ is not `return self.<key> < other.<key>`: "
+                                  + ast.unparse(meths["__lt__"])[:200])
+            eq = ""
+            if "__eq__" in meths:
+                eq = _self_other_compare(meths["__eq__"], ast.Eq)
+                if eq is None:
+                    raise LookupError(f"{path.name}:{c.name}.__eq__ is not `return self.<key> == other.<key>`")
+            hs = ""
+            if "__hash__" in meths:
+                hits = [ast.unparse(n.args[0]) for n in ast.walk(meths["__hash__"])
+                        if isinstance(n, ast.Call) and isinstance(n.func, ast.Name) and n.func.id == "hash" and n.args]
+                if len(hits) != 1 or not hits[0].startswith("self."):
+                    raise LookupError(f"{path.name}:{c.name}.__hash__ does not hash one attribute of self")
+                hs = hits[0][len("self."):]
+            for other in ("__le__", "__gt__", "__ge__"):
+                if other in meths:
+                    raise LookupError(f"{path.name}:{c.name} defines {other}: not the modelled shape")
+            out.append((f"{path.name}:{c.name}", lt, eq, hs))
+    names = [o[0] for o in out]
+    for need in ("graphs.py:BaseNode", "sourceform.py:FortranBase"):
+        if need not in names:
+            raise LookupError(f"{need}.__lt__ not found")
+    return out
+
+
+FS_ENUM_CALLS = {"listdir", "scandir", "glob", "rglob", "iterdir", "walk", "find_all_files", "iglob"}
+
+
+def sort_sites():
+    """every `sorted(..)`, `.sort(..)`, `min/max(.., key=)` of ford/*.py and every `|sort` filter of the templates:
+    (site, kind of input, key).  Kind of input: `hash` (syntactically a hash-ordered collection), `fs` (a file-system
+    enumeration: listdir / glob / iterdir / walk ...), else `other`.  A stable sort on a key that does not distinguish
+    the elements hands the order of its input on, so every site must either use the natural order of the elements
+    (no key; for objects that is `__lt__`, see order_defs) or have been reviewed."""
+    out = []
+    for path in sorted((common.REPO / "ford").glob("*.py")):
+        tree = ast.parse(path.read_text())
+        set_attrs = _file_set_attrs(tree)
+
+        def visit_fn(fn, qual):
+            c = OrderClass(set_attrs, _local_env(fn, set_attrs))
+
+            def kind(e):
+                if e is None:
+                    return "other"
+                if c.cls(e) == "hash":
+                    return "hash"
+                for x in ast.walk(e):
+                    if isinstance(x, ast.Call):
+                        nm, _m = _call_name(x)
+                        if nm in FS_ENUM_CALLS:
+                            return "fs"
+                return "other"
+
+            for n in ast.walk(fn):
+                if isinstance(n, (ast.FunctionDef, ast.AsyncFunctionDef)) and n is not fn:
+                    continue
+                if not isinstance(n, ast.Call):
+                    continue
+                nm, is_m = _call_name(n)
+                kws = {k.arg: k.value for k in n.keywords if k.arg}
+                if nm == "sorted" and not is_m:
+                    arg = n.args[0] if n.args else None
+                    key = kws.get("key", n.args[1] if len(n.args) > 1 else None)
+                    inner, _ = peel(arg) if arg is not None else (None, False)
+                    out.append((f"{path.name}:{qual}: sorted({ast.unparse(inner) if inner is not None else ''})",
+                                kind(arg), ast.unparse(key) if key is not None else "",
+                                "reverse" if "reverse" in kws else ""))
+                elif nm == "sort" and is_m:
+                    key = kws.get("key")
+                    out.append((f"{path.name}:{qual}: {ast.unparse(n.func.value)}.sort()", kind(n.func.value),
+                                ast.unparse(key) if key is not None else "", "reverse" if "reverse" in kws else ""))
+                elif nm in ("min", "max") and not is_m and "key" in kws:
+                    out.append((f"{path.name}:{qual}: {nm}({ast.unparse(n.args[0]) if n.args else ''})",
+                                kind(n.args[0] if n.args else None), ast.unparse(kws["key"]), ""))
+
+        def walk_defs(node, prefix):
+            for ch in ast.iter_child_nodes(node):
+                if isinstance(ch, (ast.FunctionDef, ast.AsyncFunctionDef)):
+                    visit_fn(ch, prefix + ch.name)
+                    walk_defs(ch, prefix + ch.name + ".")
+                elif isinstance(ch, ast.ClassDef):
+                    walk_defs(ch, prefix + ch.name + ".")
+
+        walk_defs(tree, "")
+    # the templates: `x | sort(...)`, `dictsort`, `groupby`, `unique`
+    import jinja2
+    from jinja2 import nodes as jn
+
+    env = jinja2.Environment()
+    tdir = common.REPO / "ford" / "templates"
+    for tp in sorted(tdir.glob("*.html")):
+        try:
+            tt = env.parse(tp.read_text())
+        except Exception as e:  # a template Jinja cannot parse is somebody else's problem, but say so
+            raise LookupError(f"template {tp.name} does not parse: {e}")
+        for f in tt.find_all(jn.Filter):
+            if f.name in ("sort", "dictsort", "groupby", "unique"):
+                args = [_jinja_src(a) for a in f.args] + [f"{k.key}={_jinja_src(k.value)}" for k in f.kwargs]
+                out.append((f"templates/{tp.name}: {_jinja_src(f.node)}|{f.name}", "other", ", ".join(args), ""))
+    if not any(s_[0].startswith("pagetree.py:") for s_ in out) or len(out) < 10:
+        raise LookupError("sort_sites: the scanner no longer finds the sorts of the package (none in pagetree.py)")
+    # one entry per (site, kind, key): several loops over the same expression in one function collapse
+    return sorted(set(out))
+
+
+def _jinja_src(n) -> str:
+    from jinja2 import nodes as jn
+    if isinstance(n, jn.Name):
+        return n.name
+    if isinstance(n, jn.Getattr):
+        return _jinja_src(n.node) + "." + n.attr
+    if isinstance(n, jn.Const):
+        return repr(n.value)
+    if isinstance(n, jn.Filter):
+        return _jinja_src(n.node) + "|" + n.name
+    if isinstance(n, jn.Getitem):
+        return _jinja_src(n.node) + "[..]"
+    return type(n).__name__
+
+
+PAGE_PROBE_ENTRIES = ["index.md", "usage.md", "usage", "FAQ.md", "faq.md", "b.md", "a-b.md", "a.md", "Zeta.md", "notes.txt",
+                      "data.csv", "img", ".hidden.md", "old.md~"]
+PAGE_PROBE_ORDERED = [[], ["b.md", "ghost.md", "usage", "Zeta.md"]]
+
+
+class _ScanOrdered:
+    """stands in for the iterator of os.scandir: the entries in a chosen order"""
+
+    def __init__(self, it, order):
+        with it:
+            self._entries = order(list(it), key=lambda e: e.name)
+
+    def __iter__(self):
+        return iter(self._entries)
+
+    def __enter__(self):
+        return self
+
+    def __exit__(self, *a):
+        return False
+
+    def close(self):
+        pass
+
+
+def page_file_list(natural, ordered, enum):
+    """the model's rule (lean: Order.pageFileList), used to recognise which rule the code follows"""
+    import os
+
+    fl = sorted(enum, key=(lambda n: n) if natural else (lambda n: os.path.splitext(n)[0].lower()))
+    if "index.md" in fl:
+        fl.remove("index.md")
+    merged = list(dict.fromkeys(list(ordered) + fl)) if ordered else fl
+    return [n for n in merged if n[0] != "." and n[-1] != "~"]
+
+
+def page_list_natural():
+    """Does `get_page_tree` walk the entries of a page directory in the order of their *names*, however the file
+    system lists them - and does it follow the modelled rule (`index.md` left out, the `ordered_subpage` list merged in
+    front without duplicates, dot files and `~` backups skipped)?  Observed: the real `get_page_tree` runs on a
+    scratch directory (a page `usage.md` next to a directory `usage/`, `FAQ.md` next to `faq.md`, a hidden file, a
+    backup, other files, a directory without index.md) with a recording stand-in for `PageNode`, with and without an
+    `ordered_subpage` list, while `os.listdir` / `os.scandir` hand out the entries ascending, descending and
+    rotated.  True: pages and files come out as the rule with the plain name order says, every time; False: as the
+    rule with the lower-cased-stem key says (the listing order then shows among equal keys); anything else raises.
+    Returns (natural, description)."""
+    common.import_ford()
+    import contextlib
+    import io
+    import os
+
+    import ford.pagetree as PT
+
+    observed = []
+    with common.scratch_dir("ford-verif-c12-pages-") as scratch:
+        top = Path(scratch) / "pages"
+        top.mkdir()
+        for name in PAGE_PROBE_ENTRIES:
+            if name in ("usage", "img"):
+                (top / name).mkdir()
+            else:
+                (top / name).write_text(f"title: {name}\n---\ntext\n")
+        (top / "usage" / "index.md").write_text("title: usage dir\n---\ntext\n")
+        (top / "img" / "x.png").write_text("no page here\n")
+        names = sorted(os.listdir(top))
+        if names != sorted(PAGE_PROBE_ENTRIES):
+            raise LookupError(f"page probe: scratch directory holds {names}")
+
+        def ascending(xs, key=lambda x: x):
+            return sorted(xs, key=key)
+
+        def descending(xs, key=lambda x: x):
+            return sorted(xs, key=key, reverse=True)
+
+        def rotated(xs, key=lambda x: x):
+            s_ = sorted(xs, key=key)
+            return s_[len(s_) // 2:] + s_[:len(s_) // 2]
+
+        def is_page(n):
+            return (n.endswith(".md") and (top / n).is_file()) or (top / n / "index.md").is_file()
+
+        saved = (PT.PageNode, os.listdir, os.scandir)
+        try:
+            for ordered in PAGE_PROBE_ORDERED:
+                class StubNode:
+                    def __init__(self, md, path, output_dir, proj_copy_subdir, parent, encoding="utf-8", ordered=ordered):
+                        self.src = Path(path)
+                        self.parent = parent
+                        self.ordered_subpages = list(ordered) if self.src == top / "index.md" else []
+                        self.copy_subdir = []
+                        self.subpages = []
+                        self.files = []
+
+                PT.PageNode = StubNode
+                for order in (ascending, descending, rotated):
+                    os.listdir = lambda p_=".", order=order: order(saved[1](p_))
+                    os.scandir = lambda p_=".", order=order: _ScanOrdered(saved[2](p_), order)
+                    with contextlib.redirect_stdout(io.StringIO()), contextlib.redirect_stderr(io.StringIO()):
+                        node = PT.get_page_tree(top, [], Path(scratch) / "out", None)
+                    if node is None:
+                        raise LookupError("page probe: get_page_tree returned no tree")
+                    listing = order(names)
+                    got = ([os.path.relpath(sp.src, top).split(os.sep)[0] for sp in node.subpages], [str(f) for f in node.files])
+                    want = {}
+                    for natural in (True, False):
+                        walk = page_file_list(natural, ordered, listing)
+                        want[natural] = ([n for n in walk if is_page(n)],
+                                         [n for n in walk if (top / n).is_file() and not n.endswith(".md")])
+                    observed.append((got == want[True], got == want[False], got, want[True]))
+        finally:
+            PT.PageNode, os.listdir, os.scandir = saved
+    if all(o[0] for o in observed):
+        return True, "entries walked in name order for every listing order"
+    if all(o[1] for o in observed):
+        return False, "entries walked in the order of their lower-cased stems: the listing order shows among equal keys"
+    bad = next(o for o in observed if not o[0])
+    raise LookupError(f"get_page_tree no longer follows the modelled rule: walked {bad[2]}, the rule says {bad[3]}")
+
+
 def lean_chars(s: str) -> str:
     """char-list literal (fast for `decide`, unlike "..".toList)"""
     def ch(c):
@@ -637,7 +1361,7 @@ def generate() -> dict:
     containers, chain_order = correlate_tables()
     fsorted, fsrc = file_iter_sorted()
     pages = page_list_order()
-    steps, dirs = writeout_steps()
+    steps, dirs, steps_file = writeout_steps()
     sites = node_iter_sites()
     serial, par = output_graphs_tables()
     usorted = uses_iter_sorted()
@@ -645,6 +1369,12 @@ def generate() -> dict:
     inc_ordered, inc_src = inc_dirs_ordered()
     inh_ordered, inh_src = inherited_iter_ordered()
     hsites = hash_iter_sites()
+    ext_by_suffix = extension_by_suffix()
+    out_excl = output_dir_excluded()
+    odefs = order_defs()
+    ssites = sort_sites()
+    page_natural, page_src = page_list_natural()
+    lt_of = {o[0]: o[1] for o in odefs}
 
     def pairs(xs):
         return lean_list(f"({lean_str(a)}, {lean_str(b)})" for a, b in xs)
@@ -667,14 +1397,17 @@ def generate() -> dict:
          "def unitChainOrder : List Str := " + lean_list(lean_str(a) for a in chain_order),
          "", "/-- entity_list_page_map of Documentation.__init__ (project list, page class), incl. the incl_src entry -/",
          "def pageListOrder : List (Str × Str) := " + pairs(pages),
-         "", f"/-- `for filename in ...{fsrc}...`: is the file set sorted before it is iterated? -/",
+         "", f"/-- Project.__init__ (probed: {fsrc}): is the file set sorted before it is iterated? -/",
          f"def fileIterSorted : Bool := {'true' if fsorted else 'false'}",
          "", "/-- `{% for use in obj.uses %}` of the use_list macro: iterated through a sort filter? -/",
          f"def usesIterSorted : Bool := {'true' if usorted else 'false'}",
          "", "/-- `self.uses = set(...)` in FortranCodeUnit.correlate -/",
          f"def usesIsSet : Bool := {'true' if uset else 'false'}",
-         "", "/-- kinds of the top-level statements of Documentation.writeout -/",
+         "", "/-- what a run does at the output directory, in order (observed on a real run over a stale output directory; "
+         + "`removeOut`: from here on the stale content is gone) -/",
          "def writeoutSteps : List Str := " + lean_list(lean_str(s) for s in steps),
+         "", "/-- the same when a plain file stands where the output directory goes -/",
+         "def writeoutStepsPlainFile : List Str := " + lean_list(lean_str(s) for s in steps_file),
          "", "/-- directories created by writeout -/",
          "def outDirs : List Str := " + lean_list(lean_str(s) for s in dirs),
          "", "/-- loops over node collections in graphs.py: (site, iterated through sorted()) -/",
@@ -684,7 +1417,7 @@ def generate() -> dict:
          "def serialGraphs : List (Str × List Str) := " + gtab(serial),
          "", "/-- output_graphs, process_map branch -/",
          "def parallelGraphs : List (Str × List Str) := " + gtab(par),
-         "", f"/-- FortranReader: `self.inc_dirs = {inc_src}` and the probing loop of include() keep the order given -/",
+         "", f"/-- FortranReader (probed on the real reader for all orders of three directories): {inc_src} -/",
          f"def incDirsOrdered : Bool := {'true' if inc_ordered else 'false'}",
          "", "/-- FortranType.correlate: the loops that collect inherited components / bindings iterate "
          + "; ".join(inh_src).replace("-/", "- /") + " : all in source order? -/",
@@ -692,15 +1425,37 @@ def generate() -> dict:
          "", "/-- ford/*.py: syntactically hash-ordered collections turned into a sequence: (site, goes through sorted()) -/",
          "def hashIterSites : List (Str × Bool) := "
          + lean_list(f"({lean_chars(s)}, {'true' if b else 'false'})" for s, b in hsites),
+         "", "/-- Project.__init__ (probed on stubs): the kind of a file (free / fixed form, preprocessed, extra file type) is "
+         + "decided by the last suffix of its name (true) or by the first configured extension the name ends with (false) -/",
+         f"def extensionBySuffix : Bool := {'true' if ext_by_suffix else 'false'}",
+         "", "/-- find_all_files (probed on a scratch project whose output directory lies inside the source directory and "
+         + "holds a stale Fortran file): (how the output directory is configured, stale file left out) -/",
+         "def outputDirExcludedIn : List (Str × Bool) := "
+         + lean_list(f"({lean_chars(s)}, {'true' if b else 'false'})" for s, b in out_excl),
+         "", "/-- every class of ford/*.py with `__lt__`: (class, key compared by __lt__, key of __eq__ or empty, key of __hash__ or empty) -/",
+         "def orderDefs : List (Str × Str × Str × Str) := "
+         + lean_list(f"({lean_chars(a)}, {lean_chars(b)}, {lean_chars(c_)}, {lean_chars(d)})" for a, b, c_, d in odefs),
+         "", f"/-- BaseNode.__lt__ compares `{lt_of['graphs.py:BaseNode']}`: is that the identifier the node sets are keyed by? -/",
+         f"def nodeLtByIdent : Bool := {'true' if lt_of['graphs.py:BaseNode'] == 'ident' else 'false'}",
+         "", f"/-- FortranBase.__lt__ compares `{lt_of['sourceform.py:FortranBase']}`: the identifier? -/",
+         f"def entityLtByIdent : Bool := {'true' if lt_of['sourceform.py:FortranBase'] == 'ident' else 'false'}",
+         "", "/-- every sorted() / .sort() / keyed min,max of ford/*.py and every sort filter of the templates: "
+         "(site, kind of input hash|fs|other, key or empty, `reverse` or empty) -/",
+         "def sortSites : List (Str × Str × Str × Str) := "
+         + lean_list(f"({lean_chars(a)}, {lean_chars(b)}, {lean_chars(c_)}, {lean_chars(d)})" for a, b, c_, d in ssites),
+         "", f"/-- get_page_tree (probed with the page directory listed in several orders): {page_src} -/",
+         f"def pageListNatural : Bool := {'true' if page_natural else 'false'}",
          "", "end Ford.Gen.C12", ""]
     text = "\n".join(L)
     common.write_if_changed(common.LEAN / "FordModel" / "Generated" / "C12.lean", text)
     return {"symbolReplacements": sym, "fortranFileOrder": ffo, "containersOrder": containers,
             "unitChainOrder": chain_order, "pageListOrder": pages, "fileIterSorted": fsorted, "countKeyLower": count_lower,
-            "usesIterSorted": usorted, "usesIsSet": uset, "writeoutSteps": steps, "outDirs": dirs,
+            "usesIterSorted": usorted, "usesIsSet": uset, "writeoutSteps": steps, "outDirs": dirs, "writeoutStepsPlainFile": steps_file,
             "nodeIterSites": sites, "serialGraphs": serial, "parallelGraphs": par,
             "incDirsOrdered": inc_ordered, "inheritedIterOrdered": inh_ordered, "hashIterSites": hsites,
             "inheritedIterables": inh_src, "incDirsKept": inc_src,
+            "extensionBySuffix": ext_by_suffix, "outputDirExcludedIn": out_excl,
+            "orderDefs": odefs, "sortSites": ssites, "pageListNatural": page_natural, "pageListing": page_src,
             "find_all_files_returns": find_all_files_returns_set()}
 
 
